@@ -433,6 +433,89 @@ def eval_pattern(n, ctx):
     raise ValueError("unknown pattern %r" % (t,))
 
 
+# ------------------------------------------------------------------ "what if every binding were pushed down": a sensitivity probe, not a model of any engine
+def _mentions(n):
+    """all variables written anywhere in a pattern"""
+    out = set()
+    def walk(x):
+        if isinstance(x, dict):
+            for v in x.values(): walk(v)
+        elif isinstance(x, list):
+            if len(x) == 2 and x[0] == "var" and isinstance(x[1], str): out.add(x[1]); return
+            if x and x[0] == "values" and len(x) == 3: out.update(x[1]); return
+            if x and x[0] == "bind" and len(x) == 3: out.add(x[2])
+            if x and x[0] == "bound" and len(x) == 2 and isinstance(x[1], str): out.add(x[1]); return
+            for y in x: walk(y)
+    walk(n)
+    return out
+
+
+def eval_seeded(n, ctx, seed):
+    """Evaluate a pattern the way a fully top-down engine would: every solution found so far is handed into the evaluation of the next
+    element and of everything nested in it. Where this gives the same multiset as eval_pattern (the algebra), pushing bindings down cannot
+    matter for the query; where it differs, the query is inside the region of the listed push-down finding. Raises Latitude for shapes it
+    does not cover."""
+    t = n[0]
+    if t in ("bgp", "values"): return join([seed], eval_pattern(n, ctx), ctx)
+    if t == "union": return eval_seeded(n[1], ctx, seed) + eval_seeded(n[2], ctx, seed)
+    if t == "subselect":
+        spec = n[1]
+        if set(spec) - {"where", "proj", "distinct", "star"} or any(not isinstance(p, str) for p in spec.get("proj") or []): raise Latitude("sub-select with modifiers")
+        keep = set(select_vars(spec)) | set(seed)
+        sols = [{k: v for k, v in m.items() if k in keep} for m in eval_seeded(spec["where"], ctx, seed)]
+        if spec.get("distinct"):
+            seen = set(); d = []
+            for m in sols:
+                k = frozenset((a, rkey(b)) for a, b in m.items())
+                if k not in seen: seen.add(k); d.append(m)
+            sols = d
+        return sols
+    if t == "graph":
+        name = n[1]; named = ctx.dataset["named"]
+        if name[0] == "var" and name[1] in seed: name = ["c", enc(seed[name[1]])]
+        if name[0] == "c":
+            k = lkey(dec(name[1]))
+            return eval_seeded(n[2], ctx.with_active(named[k][1] if k in named else set()), seed)
+        out = []
+        for k, (term, trip) in named.items():
+            for m in eval_seeded(n[2], ctx.with_active(trip), seed):
+                if name[1] in m:
+                    if lkey(m[name[1]]) == k: out.append(m)
+                else:
+                    m2 = dict(m); m2[name[1]] = term; out.append(m2)
+        return out
+    if t == "group":
+        G = [seed]
+        for e in n[1]:
+            k = e[0]
+            if k == "filter": continue
+            out = []
+            if k == "optional":
+                inner = e[1]; conds = group_filters(inner[1]); body = ["group", [x for x in inner[1] if x[0] != "filter"]]
+                for a in G:
+                    ok = [m for m in eval_seeded(body, ctx, a) if all(test(f, m, ctx) for f in conds)]
+                    out += ok or [a]
+            elif k == "minus":
+                shared = _mentions(e[1])
+                for a in G:
+                    if not (eval_seeded(e[1], ctx, a) and (shared & set(a))): out.append(a)
+            elif k == "bind":
+                for a in G:
+                    if e[2] in a: out.append(a); continue
+                    try:
+                        m = dict(a); m[e[2]] = ev(e[1], a, ctx); out.append(m)
+                    except Err:
+                        out.append(a)
+            else:
+                for a in G: out += eval_seeded(e, ctx, a)
+            G = out
+            if len(G) > ctx.budget: raise Budget()
+        for f in group_filters(n[1]):
+            G = [m for m in G if test(f, m, ctx)]
+        return G
+    raise Latitude("pattern %r not covered by the push-down probe" % (t,))
+
+
 # ------------------------------------------------------------------ variables in scope (spec 18.2.1)
 def in_scope(n):
     t = n[0]
